@@ -119,6 +119,13 @@ def gen_config(seed, tier='quick', family=None):
             'measure_at_checkpoints': wl.random() < 0.5,
             'max_hours': wl.choice([None, None, 1.0]),
         })
+        # chi_list: ramp the bond dimension up during the run; a value of None means "chi_max at initialisation"
+        r = wl.random()
+        if r < 0.3 and cfg['chi'] > 4:
+            at = wl.choice([1, 2, 3])
+            cfg['chi_list'] = [[0, wl.choice([2, 4])], [at, None if wl.random() < 0.5 else cfg['chi']]]
+        else:
+            cfg['chi_list'] = None
     else:
         cfg.update({
             'dt': wl.choice([0.05, 0.1]),
@@ -163,6 +170,8 @@ def build_params(cfg, out_name='results'):
         ap = {'trunc_params': trunc, 'max_sweeps': cfg['max_sweeps'], 'N_sweeps_check': cfg['N_sweeps_check'],
               'mixer': cfg['mixer'], 'lanczos_params': {'N_min': 2, 'N_max': 20},
               'max_trunc_err': None}  # small chi on purpose: do not abort on the truncation-error sanity check
+        if cfg.get('chi_list'):
+            ap['chi_list'] = {int(k): v for k, v in cfg['chi_list']}
         if cfg['mixer']:
             ap['mixer_params'] = {'amplitude': 1.0e-5, 'decay': 2.0, 'disable_after': 2}  # tenpy's default amplitude
         if cfg['fixed_sweeps']:
